@@ -17,7 +17,7 @@ import (
 
 var c13Profile = &kvh.GenProfile{
 	Weights: map[string]int{
-		"put": 46, "del": 10, "batch": 18, "sync": 5, "reopen": 6, "merge": 3, "get": 2, "tear": 5,
+		"put": 46, "del": 10, "batch": 18, "sync": 5, "reopen": 6, "merge": 3, "get": 2, "tear": 5, "kill": 5,
 	},
 	MaxBatchOps: 6,
 	Big:         true,
@@ -112,6 +112,12 @@ func c13Setup(r *kvh.Runner) {
 		s.syncBatchOp = op.K == "batch" && op.Sync
 		s.inCall = op.K
 	})
+	r.OnKilled = func(r *kvh.Runner) {
+		// what the dead process had acknowledged under ITS strategy is not owed a flush by the clauses for Always /
+		// Threshold of the next one; Sync(), rotation and Close of the new process cover the inherited bytes too
+		s.extents = nil
+		s.inCall = "open"
+	}
 	r.OnClosed = func(r *kvh.Runner) *kvh.Fail {
 		if bad := filesUnsynced("", r.Dir, mergeDir); len(bad) > 0 {
 			return &kvh.Fail{Sig: "close-leaves-unsynced-data", Msg: fmt.Sprintf("after Close() returned: %v", bad)}
